@@ -1,0 +1,11 @@
+// +build !verif
+
+// Package verifhook provides schedule-perturbation points for the
+// out-of-tree runtime-verification harness.  Without the "verif" build tag
+// every function here is an empty, inlinable no-op.
+package verifhook
+
+// Yield marks a point where the calling goroutine holds no lock of the
+// package it is called from (or is about to block on one), i.e. a point
+// where the scheduler could legitimately pre-empt it.
+func Yield(site int) {}
